@@ -286,6 +286,15 @@ func runPolicyPasses(seed uint64) (violation string, total passStats, passes, mu
 		for t := 0; t < touches; t++ {
 			p.TouchUnapplied(k, w)
 		}
+		// sometimes the key was written several times before the events were drained: the earlier nodes are
+		// already replaced when their insertion events are applied - each of them is still an arrival
+		replaced := 0
+		if touches == 0 && r.Chance(1, 8) {
+			replaced = 1 + r.Intn(4)
+			for t := 0; t < replaced; t++ {
+				p.InsertReplaced(k, w)
+			}
+		}
 		if weighted {
 			p.InsertWeighted(k, w)
 		} else {
@@ -293,6 +302,11 @@ func runPolicyPasses(seed uint64) (violation string, total passStats, passes, mu
 		}
 		_, sampleAfter := p.SketchCounters()
 		// (an insertion may grow the sketch, which starts a new period: then nothing is owed)
+		if replaced > 0 && enabled && sampleAfter == sample && size+uint64(replaced)+1 < sample {
+			if f := p.Frequency(k); f < uint64(min(replaced+1, 15)) {
+				recordViolation = fmt.Sprintf("key %d was written %d times before its events were drained (%d insertions of already replaced nodes, then the live one): %d arrivals within one sampling period (%d of %d recordings so far), but its estimate is %d", k, replaced+1, replaced, replaced+1, size, sample, f)
+			}
+		}
 		if touches > 0 && enabled && sampleAfter == sample && size+uint64(touches)+1 < sample {
 			if f := p.Frequency(k); f < uint64(min(touches+1, 15)) {
 				recordViolation = fmt.Sprintf("key %d was read %d times before its insertion was applied and then inserted: %d recordings within one sampling period (%d of %d recordings so far), but its estimate is %d", k, touches, touches+1, size, sample, f)
